@@ -395,6 +395,26 @@ def explore(rng, tier, replay=None):
                     "and ICU request 0xE was never raised (round %s of `%s`)" % (lw.get("round"), lw["op"])]})
                 desc += " - LOST WAKE-UP exhibited on the implementation: a send completed with the interrupt enabled and no interrupt was delivered"
         violations.append((desc, rep, found))
+    # the sequential effect of every atomic action is that of TeakraModel/Apbp.lean and Icu.lean: re-tie them here (the
+    # same generators as C14 / C07), so that a change of what Send / Trigger DO - not only of how they lock - is seen
+    seq_stats = {}
+    try:
+        from checks import c07icu, c14
+        nseq = 250 if tier == "quick" else 5000
+        seq = [c07icu.gen_script(rng, 6 + rng.below(24)) for _ in range(nseq)] + [c14.gen_apbp(rng, 6 + rng.below(24)) for _ in range(nseq)]
+        pair = vlib.Pair("plain")
+        bad, sa, sb, crashes = pair.diff(seq)
+        seq_stats = {"scripts": len(seq), "disagreements": len(bad)}
+        for (i, k, ia, mb) in bad[:2]:
+            small = pair.shrink(seq[i][:k + 1])
+            ra, rb, _, _ = pair.run([small], shards=1)
+            unit = small[-1].split()[0]
+            violations.append(("the sequential effect of an atomic action of the interleaving model differs from the code: `%s` answers %r, "
+                               "the model (whose Trigger/Send/Recv/semaphore actions the theorems send_signals, reads_are_writes, ... are "
+                               "about) says %r" % (small[-1], ra[0][-1][:80] if ra[0] else None, rb[0][-1][:80] if rb[0] else None),
+                               {"kind": "correspondence", "script": small, "impl": ra[0], "model": rb[0], "correspondence": "C19/" + unit}, True))
+    except Exception as ex:      # noqa: BLE001
+        violations.append(("sequential-action slice could not run: %s" % str(ex)[-300:], {"kind": "error", "error": str(ex)[-2000:]}, False))
     pairs = an.get("host_accesses", 0) * an.get("accesses", 0)
     lw_clean = None
     if tier == "thorough" and fl.get("actions_justified", False):
@@ -422,7 +442,7 @@ def explore(rng, tier, replay=None):
             "races_outside_knownRacy": an.get("races_outside_known"),
             "lock_edges": ["%s -> %s" % e for e in an["edges"]], "lock_order": an.get("order"),
             "back_edges": len(an["backedges"]), "flags": fl, "golden_agreement": ginfo,
-            "split_sections": an["split_sections"], "lostwake_stress": lw_clean},
+            "split_sections": an["split_sections"], "lostwake_stress": lw_clean, "sequential_action_slice": seq_stats},
         "samples": [v[1]["schedule"] for v in violations if "schedule" in v[1]][:3],
         "unmodelled": [],
         "violations": violations,
